@@ -225,8 +225,8 @@ func c24Reference(c c24Claim, h *types.Header, secondarySlots byte, auths []type
 func TestVerif_C24(t *testing.T) {
 	r := verifmc.NewReport("C24", "babe-verify", "exploration")
 	defer r.Write()
-	maxN := verifmc.Pick(3, 4)
-	nSlots := verifmc.Pick(4, 12)
+	maxN := verifmc.Pick(3, 6)
+	nSlots := verifmc.Pick(4, 48)
 	r.Rule = fmt.Sprintf("every (allowed-slots configuration 0/1/2, n=1..%d sr25519 authorities, threshold from c in {1/1, 1/2, 1/10^6}, slot 0..%d, claiming authority, claim kind primary/secondary-plain/secondary-VRF with the claimant's own correct VRF signature) x deviations {none, every other authority index incl. n and 2^32-1, VRF output bit flip, VRF proof bit flip, slot changed after signing, seal bit flip, seal by every other authority, extra digest after the seal, pre-runtime digest missing}; verdict of the real verifier (built by VerificationManager.getVerifierInfo + newVerifier) compared with a reference evaluation of the statement; additionally every claim produced by the node's own claimSlot must verify", maxN, nSlots-1)
 	r.Assumption("sr25519 VRF and signature primitives (go-schnorrkel) are trusted; the reference uses them only as primitives")
 	randomness := [32]byte{0x42, 1, 2, 3}
